@@ -1,4 +1,6 @@
 import NomtModel.Store.ImgCheck
+import NomtModel.Store.ConstantsAlloc
+import NomtModel.Store.ProbeInv
 /-!
 # C19 — page accounting (the part checked on the on-disk image)
 
@@ -37,5 +39,42 @@ theorem T19_no_double_claim (marks : Array UInt8) (bump pn : Nat) (tag : UInt8) 
 
 /-- the leak counter of an all-claimed range is zero on a tiny instance (kernel evaluation) -/
 example : countUnclaimed #[0, 1, 2, 4] 4 = 0 ∧ countUnclaimed #[0, 1, 0, 4] 4 = 1 := by decide
+
+/-! ## occupancy of the hash table and the constants behind it -/
+
+/-- T19.const (meta bytes): with the values extracted from `bitbox/meta_map.rs`, `EMPTY`,
+`TOMBSTONE` and every full entry `FULL_MASK ^ tag` are pairwise distinct bytes, different tags give
+different bytes, the test of `full_count` (`byte & FULL_MASK != 0`) holds exactly for full entries,
+and the decoder `decodeSlot` of the image monitor reads them back -/
+theorem T19_const_meta_bytes :
+    Gen.EMPTY ≠ Gen.TOMBSTONE ∧ Gen.EMPTY &&& Gen.FULL_MASK = 0 ∧ Gen.TOMBSTONE &&& Gen.FULL_MASK = 0 ∧
+    (∀ t, t < 128 →
+      (Gen.FULL_MASK ^^^ t) ≠ Gen.EMPTY ∧ (Gen.FULL_MASK ^^^ t) ≠ Gen.TOMBSTONE ∧
+      (Gen.FULL_MASK ^^^ t) < 256 ∧ (Gen.FULL_MASK ^^^ t) &&& Gen.FULL_MASK ≠ 0 ∧
+      decodeSlot (Gen.FULL_MASK ^^^ t) = some (.full t)) ∧
+    (∀ t1 t2, t1 < 128 → t2 < 128 → Gen.FULL_MASK ^^^ t1 = Gen.FULL_MASK ^^^ t2 → t1 = t2) ∧
+    decodeSlot Gen.EMPTY = some .empty ∧ decodeSlot Gen.TOMBSTONE = some .tombstone := by
+  have d := ConstantsCheck.meta_bytes_distinct
+  have s := ConstantsCheck.decode_slot
+  refine ⟨d.1, d.2.1, d.2.2.1, ?_, ConstantsCheck.full_entry_injective, s.1, s.2.1⟩
+  intro t ht
+  have x := d.2.2.2.2 t ht
+  exact ⟨x.1, x.2.1, x.2.2.1, x.2.2.2.1, s.2.2 t ht⟩
+
+/-- T19.const (free list): the capacity the free-list decoder accepts is the capacity of the code,
+and that many page numbers fit in a page after the 6-byte header -/
+theorem T19_const_freelist :
+    MAX_PNS_PER_FREELIST_PAGE = Gen.FREELIST_MAX_PNS_PER_PAGE ∧
+    4 + 2 + 4 * Gen.FREELIST_MAX_PNS_PER_PAGE ≤ Gen.PAGE_SIZE ∧ 0 < Gen.GROW_STORE_BY_PAGES :=
+  ⟨ConstantsCheck.freelist_capacity, ConstantsCheck.freelist_page_layout.2.1, ConstantsCheck.freelist_page_layout.2.2.2⟩
+
+/-- T19.occ the occupancy the API reports (`full_count` of the meta bytes, kept up to date by
+`+1` per allocated and `-1` per freed bucket) is the number of distinct stored pages: in every
+table without a page id in two full buckets the stored page ids, in bucket order, form a
+duplicate-free list of length `occupied` (model: `Store/ProbeModel.lean`; full theorems T5.5 in C05) -/
+theorem T19_occupied_is_stored_pages (T : Probe.Table) (hD : Probe.NoDup T) :
+    (Probe.storedPages T).Nodup ∧ (Probe.storedPages T).length = Probe.occupied T ∧
+    ∀ p, p ∈ Probe.storedPages T ↔ ∃ b, Probe.Stored T p b :=
+  Probe.storedPages_spec hD
 
 end Nomt.C19
